@@ -86,7 +86,15 @@ pipeline = {
                             },
                         ],
                     },
-                    "to": {"type": "string"},
+                    "to": {
+                        "type": "string",
+                        "patterns": [
+                            {
+                                "regex": patterns.dotless,
+                                "description": "cannot include the . character",
+                            },
+                        ],
+                    },
                 },
             },
             "constraints": {
